@@ -326,9 +326,9 @@ def check(prog, run):
         return None
 
     def abev(test, truth):
-        for names, _ in shapes.class_tests(test, ft):
+        for names, _, pos in shapes.class_tests_signed(test, ft):
             if "GraphQLAbstractType" in names:
-                return "abstract" if truth else "concrete"
+                return "abstract" if truth == pos else "concrete"
         return None
     comp_if = [st for st in cv.node.body if isinstance(st, ast.If) and any("Composite" in nm or nm in ("ObjectType",) for names, _ in shapes.class_tests(st.test, ft) for nm in names)]
     if comp_if:
@@ -731,13 +731,7 @@ def check_add_error(prog, run, r):
         val = None
         for x in env.get(boolx.STMTS, ()):
             if isinstance(x, ast.Assign) and ast.unparse(x.targets[0]) == "%s.path" % err:
-                v = x.value
-                while isinstance(v, ast.IfExp):
-                    try:
-                        v = v.body if boolx.evaluate(v.test, atoms) else v.orelse
-                    except KeyError:
-                        break
-                val = ast.unparse(v)
+                val = ast.unparse(boolx.path_value(env.get(boolx.STMTS, ()), x, x.value, atoms))
         if kind == "raise" or not appended or val != path:
             cond = ", ".join("%s=%s" % kv for kv in sorted(atoms.items()))
             run.report(r, "%s:ResolutionContext.add_error:path-not-taken" % WRAP, ae.where(st) if st is not None else ae.where(),
